@@ -72,6 +72,10 @@ class C03(core.Prop):
                 for arom in ((False,) if (na * nd > 2 or nc > 2) else (False, True)):
                     out.append({'mode': 'unit', 'nc': nc, 'topo': topo, 'na': na, 'nd': nd, 'll': ll, 'legacy': legacy, 'arom': arom,
                                 'omax': 4 if na * nd * nc <= 4 else 2})
+                if nd == 2 and (tier != 'quick' or na == 1):
+                    # the same unit at a level that is not the atomistic one (beads: no element, no hydrogen count)
+                    out.append({'mode': 'unit', 'nc': nc, 'topo': topo, 'na': na, 'nd': nd, 'll': ll, 'legacy': legacy, 'arom': False,
+                                'omax': 4 if na * nd * nc <= 4 else 2, 'coarse': True})
         # descriptors whose labels differ in length (a labelled one against an unlabelled one, ...)
         for (nc, topo, na, nd, ll) in ([(2, 'chain', 1, 1, 1), (2, 'chain', 1, 2, 1)] if tier == 'quick' else
                                        [(2, 'chain', 1, 1, 1), (2, 'chain', 1, 2, 1), (2, 'chain', 2, 1, 1), (2, 'chain', 1, 2, 2), (3, 'chain', 1, 2, 1)]):
@@ -135,6 +139,8 @@ class C03(core.Prop):
                 for a in range(shape['na']):
                     ds = inp['desc'][str(nid)]
                     attrs = dict(element='C', hcount=3, fragid=[c])
+                    if shape.get('coarse'):
+                        attrs = dict(atomname='B%d' % a, fragname='F', fragid=[c])
                     if shape['arom']:
                         attrs['aromatic'] = True
                     mol.add_node(nid, bonding=list(ds), **attrs)
@@ -146,7 +152,7 @@ class C03(core.Prop):
             R = M.resolve.MoleculeResolver
             res = R.__new__(R)
             res.meta_graph, res.molecule, res.legacy = meta, mol, legacy
-            res.edges_from_bonding_descrpt(all_atom=True)
+            res.edges_from_bonding_descrpt(all_atom=not shape.get('coarse'))
             bonds = [[a, b, d.get('order'), list(d['bonding'])] for a, b, d in mol.edges(data=True)]
             left = {n: list(meta.nodes[c]['graph'].nodes[n]['bonding']) for c in meta.nodes for n in meta.nodes[c]['graph'].nodes}
             return {'bonds': bonds, 'left': left}
